@@ -169,6 +169,8 @@ func (c *ctx) matches(axis string, tst gen.Test, i int) bool {
 	switch tst.Kind {
 	case "node":
 		return true
+	case "pi":
+		return false // the document model has no processing instructions
 	case "text":
 		return nd.Kind == doc.Text
 	case "comment":
@@ -374,6 +376,8 @@ func eval(c *ctx, e gen.Expr) Value {
 		return strV(v.V)
 	case *gen.Group:
 		return eval(c, v.E)
+	case *gen.Var:
+		return undef() // no variable bindings exist in this API
 	case *gen.Neg:
 		x := eval(c, v.E)
 		if x.T == TUndef {
